@@ -45,6 +45,35 @@ static inline uentry **umap_inc(uentry **itp)
   *itp = umap_from((umap *)(p - k), k + 1);
   return itp;
 }
+static inline umap umap_new(void) { umap m; for (unsigned k = 0; k <= NAMES; ++k) { m.slot[k].has = 0; m.slot[k].first = k; } return m; }
+static inline void umap_emplace(umap *m, const name_t *k, const upref *v)
+{
+  M_ASSERT(NAME_OK(*k), "name is an atom");
+  if (NAME_OK(*k) && !m->slot[*k].has) { m->slot[*k].has = 1; m->slot[*k].first = *k; m->slot[*k].second = *v; }   /* emplace does not overwrite */
+}
+static inline void umap_insert_range(umap *m, uentry *b, uentry *e)       /* map::insert (first, last): existing keys are kept */
+{
+  if (b == e) return;
+  uentry *base = b - b->first;
+  for (unsigned k = 0; k < NAMES; ++k)
+    {
+      uentry *s = base + k;
+      if (s >= b && s < e && s->has && !m->slot[k].has) m->slot[k] = *s;
+    }
+}
+/* bindings::names_closure (): the names bound in the scope or any enclosing one (ascending) */
+static inline namevec names_closure_model(const bindings *b)
+{
+  namevec r; r.n = 0;
+  for (unsigned k = 0; k < NAMES; ++k)
+    {
+      _Bool bound = 0; const bindings *s = b;
+      for (unsigned d = 0; d < 3; ++d) { if (s == 0) break; if (s->m_bindings.slot[k].has) bound = 1; s = s->m_super; }
+      r.d[k] = 0;
+      if (bound) r.d[r.n++] = (name_t)k;
+    }
+  return r;
+}
 /* ---- std::map<unsigned, std::string> */
 static inline idmap idmap_new(void) { idmap r; for (unsigned j = 0; j < NAMES; ++j) { r.has[j] = 0; r.name[j] = 0; } return r; }
 static inline name_t *idmap_index(idmap *m, const unsigned *id)
